@@ -4,6 +4,7 @@
    balanced. *)
 From Soy Require Import Model.Bytes Model.Num Model.Values Model.Outcome Model.Ast Model.JsGen Generated.Tables
   Spec.JsOut Spec.JsSyntax Spec.JsShape Proofs.JsGenProofs Proofs.JsGenInv Proofs.JsGenLit
+  Proofs.JsWfSplitBase Proofs.JsWfSplitNum Proofs.JsWfSplit Proofs.JsWfTail Proofs.JsWfLeaf
   Proofs.JsWfBase Proofs.JsWfBalance Proofs.JsWfFrame Proofs.JsWfMonad Proofs.JsWfExpr Proofs.JsWfStmt.
 From Coq Require Import ZifyBool ZifyNat ZifyN Lia.
 Open Scope N_scope.
@@ -102,17 +103,22 @@ Proof.
   unfold tname_okb, template_header_line. destruct (o_fmt o) eqn:Ef; intro H.
   - (* ES5: NAME = function(...) { *)
     cbn [fmt_template_text fmt_template_name is_module]. unfold js_es5_template_text, js_es5_template_name. cbn [fmt_chunks fmt_bytes app]. rewrite app_nil_r.
-    destruct (dname_stmt_run name e [] H) as (ts & L & R).
-    eexists. split.
-    + repeat first [ progress lexc | progress (cbn [lex_chunks_from option_map app]) | rewrite lex_chunk_name, L ]. reflexivity.
-    + rewrite js_run_app. rewrite Ef in R. cbn [is_module] in R. rewrite R. cbn [js_run js_step step_stmt step_want step_have cfg m_params seq1 pat_match tok_eqb kw_eqb punct_eqb bstr_eqb].
-      rewrite rev_involutive, join_split. reflexivity.
+    destruct (dname_stmt_run name e [] H) as (ts & L & R). rewrite Ef in R. cbn [is_module] in R.
+    eapply emits_cons_d; [eapply emits_toks1; [rewrite lex_chunk_name, L; reflexivity|exact R|reflexivity]|].
+    match goal with |- emits _ (?c2 :: ?r) _ _ _ _ _ => change (c2 :: r) with ([c2] ++ r) end.
+    eapply emits_app_d1.
+    + eapply emits_toks1; [vm_compute; reflexivity| |].
+      * cbn [js_run js_step step_stmt step_want step_have cfg m_params seq1]. rewrite rev_involutive, join_split. reflexivity.
+      * reflexivity.
+    + echain.
   - (* ES6: export function NAME(...) { *)
     cbn [fmt_template_text fmt_template_name is_module]. unfold js_es6_template_text, js_es6_template_name. cbn [fmt_chunks fmt_bytes app]. rewrite app_nil_r.
     pose proof (name_okb_ok _ H) as Hn.
-    eexists. split.
-    + repeat first [ progress lexc | progress (cbn [lex_chunks_from option_map app]) | rewrite lex_chunk_name, (Hn : lex_name _ = _) ]. reflexivity.
-    + reflexivity.
+    eapply emits_cons_d; [eapply emits_toks1; [vm_compute; reflexivity|reflexivity|reflexivity]|].
+    match goal with |- emits _ (?c2 :: ?r) _ _ _ _ _ => change (c2 :: r) with ([c2] ++ r) end.
+    eapply emits_app_d1.
+    + eapply emits_toks1; [rewrite lex_chunk_name, (Hn : lex_name _ = _); reflexivity|reflexivity|reflexivity].
+    + echain.
 Qed.
 
 Lemma output_buf_ok : buf_ok t_output.
@@ -179,7 +185,7 @@ Proof.
   intros Hn Hr. eapply emits_cons0; [esingle|]. eapply emits_cons0; [apply dname_run; exact Hn|]. eapply emits_cons0; [esingle|].
   destruct (has_dot pre) eqn:Hd; cbn [app].
   - destruct (dname_stmt_run pre false (KBlock BIf :: s) Hn) as (ts & L & R).
-    eapply emits_cons0; [eapply emits_toks1; [rewrite lex_chunk_name, L; reflexivity|exact R]|]. eapply emits_cons0; [esingle|exact Hr].
+    eapply emits_cons0; [eapply emits_toks1; [rewrite lex_chunk_name, L; reflexivity|exact R|tail_solve]|]. eapply emits_cons0; [esingle|exact Hr].
   - pose proof (nodot_name_ok pre Hd Hn) as Hnm. eapply emits_cons0; [esingle|]. eapply emits_cons0; [esingle|]. eapply emits_cons0; [esingle|exact Hr].
 Qed.
 
@@ -247,23 +253,70 @@ Proof.
   induction s as [|c r IH]; [reflexivity|]. cbn [has_lt' has_lt]. rewrite IH. f_equal; unfold lt_at', lt_at, ls_at; destruct r as [|c1 [|c2 r2]]; rewrite ?orb_false_r; reflexivity.
 Qed.
 
+(* a comment body without a line terminator, continued by '.', is skipped *)
+Lemma comment_safe s X : has_lt' s = false -> lex_text 0 LComment (s ++ 46 :: X) = lex_text 0 LComment (46 :: X).
+Proof.
+  induction s as [|c r IH]; intro H; [reflexivity|]. cbn [has_lt'] in H. apply orb_false_elim in H. destruct H as [H1 H2].
+  cbn [lt_at'] in H1. apply orb_false_elim in H1. destruct H1 as [H1 H3]. cbn [app lex_text]. rewrite H1.
+  assert (E : ls_at c (r ++ 46 :: X) = false).
+  { destruct r as [|c1 [|c2 r2]]; [| |exact H3]; cbn [app]; unfold ls_at.
+    - destruct X; [reflexivity|]. rewrite andb_false_r. reflexivity.
+    - rewrite andb_false_r. reflexivity. }
+  rewrite E. apply IH. exact H2.
+Qed.
+Lemma comment_plain s X : forallb (fun c => negb ((c =? 10) || (c =? 13)) && negb (c =? 226)) s = true ->
+  lex_text 0 LComment (s ++ X) = lex_text 0 LComment X.
+Proof.
+  induction s as [|c r IH]; intro H; [reflexivity|]. cbn [forallb] in H. apply andb_prop in H. destruct H as [H1 H2].
+  apply andb_prop in H1. destruct H1 as [Ha Hb]. apply negb_true_iff in Ha. apply negb_true_iff in Hb. cbn [app lex_text]. rewrite Ha.
+  assert (E : ls_at c (r ++ X) = false) by (unfold ls_at; destruct (r ++ X) as [|c1 [|c2 l]]; try reflexivity; rewrite Hb; reflexivity).
+  rewrite E. apply IH. exact H2.
+Qed.
+Lemma stmt_no_incr rest : cont_ok md (MStmt false) rest -> incr_next rest = false.
+Proof.
+  intros (ts_r & m_r & L & A). destruct (incr_next rest) eqn:Ei; [exfalso|reflexivity].
+  destruct (incr_first _ _ _ Ei L) as (tl & [-> | ->]); destruct A as (s & r & St); cbn in St; discriminate.
+Qed.
+
 Lemma header_line name n : emits md (CText (indent_text n) :: [CText t_hdr1; CFile (line_comment_safe name); CText t_dot] ++ [CText t_nl]) (MStmt false) [] (MStmt false) [] [].
 Proof.
-  exists []. split; [|reflexivity]. cbn [app lex_chunks_from lex_chunk]. rewrite lex_indent. cbn [option_map].
-  replace (lex_text 0 LNormal t_hdr1) with (Some (@nil jstoken, LComment)) by (vm_compute; reflexivity).
-  rewrite has_lt_eq, line_comment_safe_no_lt. cbn [option_map app].
-  replace (lex_text 0 LComment t_dot) with (Some (@nil jstoken, LComment)) by (vm_compute; reflexivity).
-  replace (lex_text 0 LComment t_nl) with (Some (@nil jstoken, LNormal)) by (vm_compute; reflexivity). reflexivity.
+  exists []. split; [|split; [reflexivity|]].
+  - cbn [app lex_chunks_from lex_chunk]. rewrite lex_indent. cbn [option_map].
+    replace (lex_text 0 LNormal t_hdr1) with (Some (@nil jstoken, LComment)) by (vm_compute; reflexivity).
+    rewrite has_lt_eq, line_comment_safe_no_lt. cbn [option_map app].
+    replace (lex_text 0 LComment t_dot) with (Some (@nil jstoken, LComment)) by (vm_compute; reflexivity).
+    replace (lex_text 0 LComment t_nl) with (Some (@nil jstoken, LNormal)) by (vm_compute; reflexivity). reflexivity.
+  - intros ip rest C. cbn [app render_chunks render_chunk]. rewrite <- !app_assoc. rewrite lex_indent_app.
+    unfold t_dot, t_nl. cbn [app].
+    match goal with |- context [lex_text 0 LNormal (t_hdr1 ++ ?X)] => change (lex_text 0 LNormal (t_hdr1 ++ X)) with (lex_text 0 LComment (drop 2 t_hdr1 ++ X)) end.
+    rewrite comment_plain by (vm_compute; reflexivity).
+    rewrite comment_safe by (rewrite has_lt_eq; apply line_comment_safe_no_lt).
+    assert (E1 : lex_text 0 LComment (46 :: 10 :: rest) = if incr_next rest then cons_tok tok_incr_nl (lex_text (incr_skip rest) LNormal rest) else lex_text 0 LNormal rest).
+    { cbn [lex_text]. change ((46 =? 10) || (46 =? 13)) with false. change ((10 =? 10) || (10 =? 13)) with true.
+      replace (ls_at 46 (10 :: rest)) with false by (destruct rest; reflexivity). reflexivity. }
+    rewrite E1. rewrite (stmt_no_incr rest C). rewrite prepend_nil. reflexivity.
 Qed.
 
 (* ---- imports ---- *)
+Lemma render_nostr ip ip' cs : forallb (fun c => match c with CStrLit _ _ => false | _ => true end) cs = true ->
+  render_chunks ip cs = render_chunks ip' cs.
+Proof.
+  induction cs as [|c cs IH]; [reflexivity|]. cbn [forallb render_chunks]. intro H. apply andb_prop in H. destruct H as [H1 H2].
+  rewrite (IH H2). destruct c; try reflexivity. discriminate H1.
+Qed.
 Lemma imp_run imp : imp_ok fmt imp = true -> exists d, emits md imp (MStmt false) [] (MStmt false) [] d /\ prog_funs d = [].
 Proof.
   unfold imp_ok. destruct imp as [|c imp]; [intros _; exists []; split; [apply emits_nil|reflexivity]|].
   destruct (lex_chunks_from LNormal (c :: imp)) as [[ts m]|] eqn:El; [|discriminate]. destruct m; try discriminate.
   destruct (js_run md ts (MStmt false) []) as [[[m1 s1] d1]|] eqn:Er; [|discriminate].
   destruct m1; try discriminate. destruct els; try discriminate. destruct s1; try discriminate. destruct d1 as [|[] [|]]; try discriminate.
-  intros _. eexists. split; [exists ts; split; [exact El|exact Er]|reflexivity].
+  intro Hb. apply andb_prop in Hb. destruct Hb as [Hb Hlast]. apply andb_prop in Hb. destruct Hb as [Hns Hb].
+  destruct (lex_text 0 LNormal (render_chunks (fun _ => true) (c :: imp))) as [[ts' m']|] eqn:Lb; [|discriminate Hb]. destruct m'; try discriminate Hb.
+  apply toks_eqb_eq in Hb. subst ts'.
+  eexists. split; [exists ts; split; [exact El|split; [exact Er|]]|reflexivity].
+  intros ip rest C. rewrite (render_nostr ip (fun _ => true) _ Hns). eapply text_leaf; [exact Lb| |exact C].
+  unfold tail_ok. destruct (render_chunks (fun _ : N => true) (c :: imp)) as [|b0 bs0] eqn:Er0; [exact I|].
+  cbv zeta in Hlast. apply orb_prop in Hlast. destruct Hlast as [E|E]; apply N.eqb_eq in E; rewrite E; destruct (lastint ts); reflexivity.
 Qed.
 
 Lemma import_lines_run called keys : Forall (fun kv : bstr * list chunk => imp_ok fmt (snd kv) = true) called ->
@@ -282,7 +335,8 @@ Qed.
 (* ---- the file ---- *)
 Theorem gen_file_parses fuel fk name body cs : file_chk fmt fk body = true -> gen_file o fuel name body = Ok cs ->
   exists ts prog, lex_chunks cs = Some ts /\ js_parse md ts = Some prog
-    /\ prog_funs prog = map fname (template_names body) /\ bracket_balanced ts = true.
+    /\ prog_funs prog = map fname (template_names body) /\ bracket_balanced ts = true
+    /\ forall is_print, lex_bytes (render_chunks is_print cs) = Some ts.
 Proof.
   intros Hc H. unfold gen_file in H. destruct (visit_file o fuel name body jinit_state) as [[[] st]| | | | |] eqn:Ev; try discriminate. inversion H; subst cs. clear H.
   unfold visit_file in Ev. apply bind_inv in Ev. destruct Ev as (u1 & st1 & H1 & Ev). apply bind_inv in Ev. destruct Ev as (u2 & st2 & H2 & Ev).
@@ -298,7 +352,8 @@ Proof.
               (MStmt false) [] (MStmt e4) [] (flat_map decls_of body)).
     eapply emits_app_d0; [apply (header_line name 0)|].
     change (CText [] :: CText t_hdr2 :: CText t_nl :: CText [] :: CText t_nl :: c4) with ([CText []; CText t_hdr2; CText t_nl; CText []; CText t_nl] ++ c4).
-    eapply emits_app_d0; [|exact Q4]. exists []. split; [vm_compute; reflexivity|reflexivity]. }
+    eapply emits_app_d0; [|exact Q4].
+    eapply emits_block; [intro ip; cbn [render_chunks render_chunk]; reflexivity|vm_compute; reflexivity|vm_compute; reflexivity|reflexivity|reflexivity]. }
   destruct Eout as (cw & -> & e' & Qw).
   (* the imports *)
   assert (Eimp : exists d, emits md (match j_called st with
@@ -311,10 +366,14 @@ Proof.
     destruct (import_lines_run (kv :: called) (sort_strings (o_order o (filter (fun k => negb (existsb (bstr_eqb k) (j_infile st))) (map fst (kv :: called))))) K4) as (d & R & P).
     exists d. split; [|exact P]. eapply emits_app_d1; [exact R|esingle]. }
   destruct Eimp as (d1 & Qi & Pi).
-  pose proof (emits_app md _ _ _ _ _ _ _ _ _ _ Qi Qw) as (ts & L & R).
+  pose proof (emits_app md _ _ _ _ _ _ _ _ _ _ Qi Qw) as (ts & L & R & Bt).
   exists ts, (d1 ++ flat_map decls_of body). split; [unfold lex_chunks; match goal with |- context [lex_chunks_from LNormal ?l] => match type of L with lex_chunks_from LNormal ?l' = _ => change l with l' end end; rewrite L; reflexivity|].
   assert (Hp : js_parse md ts = Some (d1 ++ flat_map decls_of body)) by (unfold js_parse; rewrite R; reflexivity).
-  split; [exact Hp|]. split; [|eapply js_parse_balanced; exact Hp].
-  unfold prog_funs in *. rewrite flat_map_app, Pi. cbn [app]. apply prog_funs_decls.
+  split; [exact Hp|]. split; [|split; [eapply js_parse_balanced; exact Hp|]].
+  - unfold prog_funs in *. rewrite flat_map_app, Pi. cbn [app]. apply prog_funs_decls.
+  - intro ip. assert (C0 : cont_ok md (MStmt e') []) by (exists [], LNormal; split; [reflexivity|exact I]).
+    pose proof (Bt ip [] C0) as Hb. rewrite app_nil_r in Hb. cbn in Hb. rewrite app_nil_r in Hb. unfold lex_bytes.
+    match goal with |- context [lex_text 0 LNormal ?x] => match type of Hb with lex_text 0 LNormal ?y = _ => change x with y end end.
+    rewrite Hb. reflexivity.
 Qed.
 End File.
